@@ -153,3 +153,56 @@ Example C06_list_frontend_agrees :
                        (zrange 2)) [1; 0]
   /\ padded_list (K:=QcF) 4 2 2 [1; 0] profs [] = map Qcz [3; 5; 1; 2].
 Proof. split; vm_compute; reflexivity. Qed.
+
+(** ------------------------------------------------------------------------------------------------
+    Tie to the CURRENT source through the translator (second wave).  [Gen/Gen_EField.v] is regenerated
+    from ElectricField::padBunchProfiles / wakePotential / updateCSR on every run
+    (translate/efield2coq.py): loop skeletons, bounds, index expressions, right-hand sides.  [run_gen P h]
+    runs a history [h] of calls through these generated programs on a fresh object [P] whose transforms
+    are the DFT of this file.  The theorems above then hold for what the generated [wakePotential]
+    returns - after any history, for every number of bunches, bucket list and spacing. *)
+From Inovesa Require Import Model.EField Model.EFieldProg Gen.Gen_EField Proofs.EFieldGenP Proofs.EFieldDFTP Proofs.EFieldTieP.
+
+Theorem C06_generated_wake_is_convolution :
+  forall (K : Fld) (P : fobj K),
+    2 <= oN P -> hypB (E_of K P) -> (forall c : K, osgn P c = Gt -> c <> f0) ->
+    twiddle_laws K (ocs P) (osn P) ->
+  forall (h : list (op K)) (p : Z -> K) (b : nat) (x : Z),
+    (b < length (obks P))%nat -> 0 <= x < on P -> 0 <= nth b (obks P) 0 * ospc P + x < oN P ->
+    disjoint_wins (on P) (ospc P) (train K P p) -> in_buffer K (oN P) (on P) (ospc P) (train K P p) ->
+    wake (run_gen K P (h ++ [Wake p])) (Z.of_nat b * on P + x)
+    = (oscale P * fsum (map (fun b' => sumZ 0 (Z.to_nat (on P))
+          (fun x' => snd b' x' * kernel K (oN P) (ocs P) (osn P) (oZ P) ((nth b (obks P) 0%Z - fst b') * ospc P + x - x')))
+          (train K P p)))%F.
+Proof. exact gen_wake_is_convolution. Qed.
+Print Assumptions C06_generated_wake_is_convolution.
+
+(** the padded buffer the generated wakePotential leaves is the zero-padded train of the CURRENT
+    profiles (bunch b at bucket_b * spacing, later bunches on top where windows overlap) *)
+Theorem C06_generated_padded_train :
+  forall (K : Fld) (P : fobj K),
+    2 <= oN P -> (forall c : K, osgn P c = Gt -> c <> f0) ->
+  forall (h : list (op K)) (p : Z -> K) (u : Z), 0 <= u < oN P ->
+    bp (run_gen K P (h ++ [Wake p])) u = padded (oN P) (on P) (ospc P) (train K P p) (fun _ => f0) u.
+Proof. exact gen_wake_padded_train. Qed.
+Print Assumptions C06_generated_padded_train.
+
+(** the generated right-hand sides: scaling is a product, the loss spectrum a complex product *)
+Theorem C06_generated_kernels :
+  forall (K : Fld) (scale w : K) (z f : cplx K),
+    gen_k_scale K scale w = (scale * w)%F /\ loss_k K z f = cmul z f.
+Proof. exact (fun K scale w z f => conj (gen_scale_spec K scale w) (loss_k_cmul K z f)). Qed.
+Print Assumptions C06_generated_kernels.
+
+(** non-vacuity: an object on the exact N = 4 table with two bunches (buckets 1 and 0, spacing 2, width 2);
+    the wake after a CSR call and a padding call equals the convolution value computed directly *)
+Example C06_generated_example :
+  let P := Fobj QcF 4 cs4 sn4 2 2 [1; 0] ex_Z (Qcz 2) 1%Qc 1%Qc 1%Qc (fun i => Qcz i) (fun x => x)
+                (fun c => (c ?= 0)%Qc) (fun l => l) in
+  let p := getz 0%Qc (map Qcz [1; 2; 3; 5]) in
+  hypB (E_of QcF P) /\
+  map (wake (run_gen QcF P ([CSR 0%Qc p; Pad p] ++ [Wake p]))) (zrange 4)
+  = map (fun bx => (Qcz 2 * fsum (map (fun b' => sumZ (K:=QcF) 0 2
+          (fun x' => snd b' x' * kernel QcF 4 cs4 sn4 ex_Z ((nth (Z.to_nat (fst bx)) [1; 0] 0 - fst b') * 2 + snd bx - x')%Z))
+          (train QcF P p)))%Qc) [(0, 0); (0, 1); (1, 0); (1, 1)].
+Proof. split; [intros l Hl; exact Hl|vm_compute; reflexivity]. Qed.
